@@ -184,7 +184,7 @@ func runC19(a runArgs) error {
 		for lo := uint64(0); lo < (1<<24)+uint64(chunk); lo += uint64(chunk) {
 			addDecSweep(uint32(lo), chunk)
 		}
-		for s := uint8(0); s <= 8; s++ {
+		for s := uint8(0); s <= 7; s++ { // szx > 7 is covered by the literal Enc cases (its error code differs from the range error)
 			for _, m := range []bool{false, true} {
 				for lo := int64(-int64(chunk)); lo < (1<<20)+int64(chunk); lo += int64(chunk) {
 					addEncSweep(s, m, lo, chunk)
